@@ -29,6 +29,8 @@ def z_cover(tier, rng):
     for e in range(-3, 7):
         zs += [1j * 10.0 ** e, -1j * 10.0 ** e]
     zs += [2.5j, -0.7j, 31.4j]
+    zs += [s * m * 10.0 ** e for e in range(-4, 1) for m in (2.0, 5.0, 9.0) for s in (-1, 1) if s * m * 10.0 ** e < 25] + \
+          [1j * m * 10.0 ** e for e in range(-4, 0) for m in (-3.0, 7.0)]
     nfan = 60 if tier == "quick" else 400
     r = 10 ** rng.uniform(-4, 6, nfan)
     th = rng.uniform(np.pi / 2, 3 * np.pi / 2, nfan)
